@@ -363,16 +363,21 @@ after the stub; a nested meta contributes its ID again) -/
 structure AState where
   info : Info
   pos : List Entry
+  /-- the IDs `SetMultiple` appended (what `DocsCounter`/`DocsTotal` count) -/
   ids : List (Nat × Nat)
+  /-- the IDs handed to `AppendIDs` (`collector.IDs` after the optional `Filter`: the SURVIVORS - an ID that occurs
+  twice in a bulk at different positions is appended once but survives twice), i.e. the fraction's `MIDs/RIDs` after
+  the stub -/
+  lids : List (Nat × Nat)
 deriving Repr, DecidableEq
 
-def newActive (ct : Nat) : AState := ⟨newInfo ct, [], []⟩
+def newActive (ct : Nat) : AState := ⟨newInfo ct, [], [], []⟩
 
 /-- one bulk through the index worker of an active fraction -/
 def ingestBulk (st : AState) (bulk : List Entry) : AState :=
   let r := setMultiple st.pos bulk
   let surv := survivors (bulk.map Prod.fst) r.2
-  ⟨updateStats st.info (collectorStats surv).1 (collectorStats surv).2 r.2.length, r.1, st.ids ++ r.2⟩
+  ⟨updateStats st.info (collectorStats surv).1 (collectorStats surv).2 r.2.length, r.1, st.ids ++ r.2, st.lids ++ surv⟩
 
 theorem setMultiple_sublist (dp bulk : List Entry) : (setMultiple dp bulk).2.Sublist (bulk.map Prod.fst) := by
   induction bulk generalizing dp with
@@ -409,6 +414,28 @@ theorem covers_ingest {st : AState} (h : Covers st.info (st.ids.map Prod.fst)) (
   · intro m hm
     rcases List.mem_map.1 hm with ⟨id, hid, rfl⟩
     exact (batchMax_ge _ 0).2 _ (List.mem_map_of_mem (mem_survivors hsub hid))
+
+theorem survivors_subset {bulk appended : List (Nat × Nat)} (hsub : appended.Sublist bulk) {id : Nat × Nat}
+    (h : id ∈ survivors bulk appended) : id ∈ appended := by
+  unfold survivors at h
+  split at h
+  · rename_i hl
+    rw [hsub.eq_of_length hl]; exact h
+  · rw [List.mem_filter] at h; simpa using h.2
+
+/-- every ID in the fraction's `MIDs/RIDs` was appended by `SetMultiple` (so it is covered and counted) -/
+theorem lids_subset {st : AState} (h : ∀ id, id ∈ st.lids → id ∈ st.ids) (hist : List (List Entry)) :
+    ∀ id, id ∈ (hist.foldl ingestBulk st).lids → id ∈ (hist.foldl ingestBulk st).ids := by
+  induction hist generalizing st with
+  | nil => exact h
+  | cons b bs ih =>
+    simp only [List.foldl_cons]
+    apply ih
+    intro id hid
+    simp only [ingestBulk] at hid ⊢
+    rcases List.mem_append.1 hid with h1 | h1
+    · exact List.mem_append_left _ (h id h1)
+    · exact List.mem_append_right _ (survivors_subset (setMultiple_sublist st.pos b) h1)
 
 theorem covers_ingest_foldl {st : AState} (h : Covers st.info (st.ids.map Prod.fst)) (hist : List (List Entry)) :
     Covers (hist.foldl ingestBulk st).info ((hist.foldl ingestBulk st).ids.map Prod.fst) := by
